@@ -11,7 +11,7 @@ offered op keeps G acyclic and inside the lists) and every legal op is offered (
 """
 import z3
 
-from vf.pyvc.engine import Atom, B, I, R, Coll, Contract, NONE, Obj, OpaqueFn, Scalar, empty_set, fresh, register, set_sort, str_const, tuple_sort
+from vf.pyvc.engine import Atom, B, I, R, Opaque, Coll, Contract, NONE, Obj, OpaqueFn, Scalar, empty_set, fresh, register, set_sort, str_const, tuple_sort
 from vf.pyvc.lib import N_, PairAA, new_graph, wf_graph
 
 from .common import graph_snapshot, graph_unchanged
@@ -49,56 +49,189 @@ class LegalOperations(Contract):
     def snapshot(self, ex, st, args):
         return graph_snapshot(args["model"])
 
+    def make_result(self, ex, st, args):
+        return Coll("iter", YieldT, fresh("legal_ops", set_sort(YieldT)))
+
     def post(self, ex, st, args, old, result):
         if not isinstance(result, Coll) or result.mem is None:
             return z3.BoolVal(False)
         g = args["model"]
-        E = old["@E"]
-        P = ex.lib.theory(ex).path(E)
-        V = args["self"].fields["variables"].mem
-        tabu, black, white, fixed = (args[k].mem for k in ("tabu_list", "black_list", "white_list", "fixed_edges"))
-        mx = args["max_indegree"].z
-        a = fresh("a", Atom)
-        pa = lambda n: z3.Lambda([a], E[a, n])
-        pa_plus = lambda n, x: z3.Lambda([a], z3.Or(E[a, n], a == x))
-        pa_minus = lambda n, x: z3.Lambda([a], z3.And(E[a, n], a != x))
-        card = lambda S: ex.lib.card(ex, Coll("set", Atom, S), st)
-
-        def sc(n, S):
-            return ex.call_opaque(args["score"], [Scalar(n), Coll("list", Atom, S)], {}, st).z
-
-        def ss(tag):
-            return ex.call_opaque(args["structure_score"], [Scalar(tag)], {}, st).z
-
-        X, Y, w = fresh("X", Atom), fresh("Y", Atom), fresh("w", Atom)
-        kind, delta = fresh("kind", Atom), fresh("delta", R)
-        op = OpT.mk(kind, PairAA.mk(X, Y))
-        t = YieldT.mk(op, delta)
+        tabu, black, white, fixed = (args[k].mem if args[k].mem is not None else empty_set(OpT if k == "tabu_list" else PairAA)
+                                     for k in ("tabu_list", "black_list", "white_list", "fixed_edges"))
+        L = legal_parts(ex, st, old["@E"], args["self"].fields["variables"].mem, tabu, black, white, fixed, args["max_indegree"].z,
+                        args["score"], args["structure_score"])
         Y_ = result.mem
-        add_legal = z3.And(V[X], V[Y], X != Y, z3.Not(E[X, Y]), z3.Not(E[Y, X]), z3.Not(P(Y, X)),
-                           z3.Not(tabu[op]), z3.Not(black[PairAA.mk(X, Y)]), white[PairAA.mk(X, Y)], card(pa(Y)) + 1 <= mx)
-        add_delta = delta == sc(Y, pa_plus(Y, X)) - sc(Y, pa(Y)) + ss(PLUS)
-        rem_legal = z3.And(E[X, Y], z3.Not(tabu[op]), z3.Not(fixed[PairAA.mk(X, Y)]))
-        rem_delta = delta == sc(Y, pa_minus(Y, X)) - sc(Y, pa(Y)) + ss(MINUS)
-        other_path = z3.Exists([w], z3.And(E[X, w], w != Y, P(w, Y)))
-        flip_legal = z3.And(E[X, Y], z3.Not(other_path), z3.Not(tabu[op]), z3.Not(tabu[OpT.mk(FLIP, PairAA.mk(Y, X))]),
-                            z3.Not(fixed[PairAA.mk(X, Y)]), z3.Not(black[PairAA.mk(Y, X)]), white[PairAA.mk(Y, X)],
-                            card(pa(X)) + 1 <= mx)
-        flip_delta = delta == sc(X, pa_plus(X, Y)) + sc(Y, pa_minus(Y, X)) - sc(X, pa(X)) - sc(Y, pa(Y)) + ss(FLIP)
-        q = [X, Y, kind, delta]
+        q, t, kind = L["q"], L["t"], L["kind"]
         return {
             "sound.kinds": z3.ForAll(q, z3.Implies(Y_[t], z3.Or(kind == PLUS, kind == MINUS, kind == FLIP))),
-            "sound.add.legal": z3.ForAll(q, z3.Implies(z3.And(Y_[t], kind == PLUS), add_legal)),
-            "sound.add.delta": z3.ForAll(q, z3.Implies(z3.And(Y_[t], kind == PLUS), add_delta)),
-            "sound.remove.legal": z3.ForAll(q, z3.Implies(z3.And(Y_[t], kind == MINUS), rem_legal)),
-            "sound.remove.delta": z3.ForAll(q, z3.Implies(z3.And(Y_[t], kind == MINUS), rem_delta)),
-            "sound.flip.legal": z3.ForAll(q, z3.Implies(z3.And(Y_[t], kind == FLIP), flip_legal)),
-            "sound.flip.delta": z3.ForAll(q, z3.Implies(z3.And(Y_[t], kind == FLIP), flip_delta)),
-            "complete.add": z3.ForAll(q, z3.Implies(z3.And(kind == PLUS, add_legal, add_delta), Y_[t])),
-            "complete.remove": z3.ForAll(q, z3.Implies(z3.And(kind == MINUS, rem_legal, rem_delta), Y_[t])),
-            "complete.flip": z3.ForAll(q, z3.Implies(z3.And(kind == FLIP, flip_legal, flip_delta), Y_[t])),
+            "sound.add.legal": z3.ForAll(q, z3.Implies(z3.And(Y_[t], kind == PLUS), L["add_legal"])),
+            "sound.add.delta": z3.ForAll(q, z3.Implies(z3.And(Y_[t], kind == PLUS), L["add_delta"])),
+            "sound.remove.legal": z3.ForAll(q, z3.Implies(z3.And(Y_[t], kind == MINUS), L["rem_legal"])),
+            "sound.remove.delta": z3.ForAll(q, z3.Implies(z3.And(Y_[t], kind == MINUS), L["rem_delta"])),
+            "sound.flip.legal": z3.ForAll(q, z3.Implies(z3.And(Y_[t], kind == FLIP), L["flip_legal"])),
+            "sound.flip.delta": z3.ForAll(q, z3.Implies(z3.And(Y_[t], kind == FLIP), L["flip_delta"])),
+            "complete.add": z3.ForAll(q, z3.Implies(z3.And(kind == PLUS, L["add_legal"], L["add_delta"]), Y_[t])),
+            "complete.remove": z3.ForAll(q, z3.Implies(z3.And(kind == MINUS, L["rem_legal"], L["rem_delta"]), Y_[t])),
+            "complete.flip": z3.ForAll(q, z3.Implies(z3.And(kind == FLIP, L["flip_legal"], L["flip_delta"]), Y_[t])),
             "frame": graph_unchanged(g, old),
         }
 
 
+def legal_parts(ex, st, E, V, tabu, black, white, fixed, mx, score, structure_score):
+    """the C11 move relation over the edge relation E: legality and score delta of ("+"|"-"|"flip", (X, Y)), as formulas over the
+    bound variables q = [X, Y, kind, delta];  t = ((kind, (X, Y)), delta)"""
+    from vf.pyvc.engine import BoundMethod
+
+    def opaque(f):   # `score.local_score` of an object whose methods are declared opaque
+        if isinstance(f, BoundMethod) and isinstance(f.recv, Obj) and f.name in f.recv.fields.get("__opaque__", {}):
+            return f.recv.fields["__opaque__"][f.name]
+        return f
+    score, structure_score = opaque(score), opaque(structure_score)
+    P = ex.lib.theory(ex).path(E)
+    a = z3.Const("pa!bound", Atom)   # one bound name: the parent-set lambdas of two calls are then the same terms
+    pa = lambda n: z3.Lambda([a], E[a, n])
+    pa_plus = lambda n, x: z3.Lambda([a], z3.Or(E[a, n], a == x))
+    pa_minus = lambda n, x: z3.Lambda([a], z3.And(E[a, n], a != x))
+    card = lambda S: ex.lib.card(ex, Coll("set", Atom, S), st)
+
+    def sc(n, S):
+        return ex.call_opaque(score, [Scalar(n), Coll("list", Atom, S)], {}, st).z
+
+    def ss(tag):
+        return ex.call_opaque(structure_score, [Scalar(tag)], {}, st).z
+
+    X, Y, w = fresh("X", Atom), fresh("Y", Atom), fresh("w", Atom)
+    kind, delta = fresh("kind", Atom), fresh("delta", R)
+    op = OpT.mk(kind, PairAA.mk(X, Y))
+    out = {"q": [X, Y, kind, delta], "t": YieldT.mk(op, delta), "kind": kind, "delta": delta, "X": X, "Y": Y}
+    out["add_legal"] = z3.And(V[X], V[Y], X != Y, z3.Not(E[X, Y]), z3.Not(E[Y, X]), z3.Not(P(Y, X)),
+                              z3.Not(tabu[op]), z3.Not(black[PairAA.mk(X, Y)]), white[PairAA.mk(X, Y)], card(pa(Y)) + 1 <= mx)
+    out["add_delta"] = delta == sc(Y, pa_plus(Y, X)) - sc(Y, pa(Y)) + ss(PLUS)
+    out["rem_legal"] = z3.And(E[X, Y], z3.Not(tabu[op]), z3.Not(fixed[PairAA.mk(X, Y)]))
+    out["rem_delta"] = delta == sc(Y, pa_minus(Y, X)) - sc(Y, pa(Y)) + ss(MINUS)
+    other_path = z3.Exists([w], z3.And(E[X, w], w != Y, P(w, Y)))
+    out["flip_legal"] = z3.And(E[X, Y], z3.Not(other_path), z3.Not(tabu[op]), z3.Not(tabu[OpT.mk(FLIP, PairAA.mk(Y, X))]),
+                               z3.Not(fixed[PairAA.mk(X, Y)]), z3.Not(black[PairAA.mk(Y, X)]), white[PairAA.mk(Y, X)],
+                               card(pa(X)) + 1 <= mx)
+    out["flip_delta"] = delta == sc(X, pa_plus(X, Y)) + sc(Y, pa_minus(Y, X)) - sc(X, pa(X)) - sc(Y, pa(Y)) + ss(FLIP)
+    return out
+
+
 register(LegalOperations())
+
+
+class HillClimbEstimate(Contract):
+    """HillClimbSearch.estimate, structure-score object given, cache off, explicit max_indegree, progress bar off (the other
+    argument forms differ only in set-up code that is outside the modelled subset and is covered by the bounded groups).
+      * the result is a DAG on exactly the data's variables containing every fixed edge;
+      * with tabu_length == 0: unless all int(max_iter) iterations were used, no legal single-edge addition, deletion or reversal
+        (legal as in _legal_operations with an empty tabu list) improves the score by epsilon or more."""
+    file = "pgmpy/estimators/HillClimbSearch.py"
+    qual = "HillClimbSearch.estimate"
+
+    def variants(self, ex):
+        for sd in ("none", "dag"):
+            for tl in ("zero", "any"):
+                this = Obj("HillClimbSearch", {"variables": Coll("list", Atom, z3.Const("variables", set_sort(Atom)), nodup=True),
+                                               "use_cache": Scalar(z3.BoolVal(False)), "data": Scalar(z3.Const("data", Opaque))})
+                score = Obj("StructureScore", {})
+                score.fields["__opaque__"] = {"local_score": OpaqueFn("score", R), "structure_prior_ratio": OpaqueFn("structure_score", R)}
+                args = {
+                    "self": this, "scoring_method": score,
+                    "start_dag": NONE if sd == "none" else new_graph("DAG", "g0"),
+                    "fixed_edges": Coll("set", PairAA, z3.Const("fixed", set_sort(PairAA))),
+                    "tabu_length": Scalar(z3.IntVal(0) if tl == "zero" else z3.Const("tabu_length", I)),
+                    "max_indegree": Scalar(z3.Const("max_indegree", I)),
+                    "black_list": Coll("set", PairAA, z3.Const("black", set_sort(PairAA))),
+                    "white_list": Coll("set", PairAA, z3.Const("white", set_sort(PairAA))),
+                    "epsilon": Scalar(z3.Const("epsilon", R)),
+                    "max_iter": Scalar(z3.Const("max_iter", I)),
+                    "show_progress": Scalar(z3.BoolVal(False)),
+                }
+                yield f"start_dag={sd},tabu_length={tl}", args, {}
+
+    def pre(self, ex, st, args):
+        parts = []
+        g = args["start_dag"]
+        if isinstance(g, Obj):
+            parts += [wf_graph(g), ex.lib.theory(ex).acyclic(g.fields["@E"])]
+        if args["tabu_length"].z.decl().kind() == z3.Z3_OP_UNINTERPRETED:
+            parts.append(args["tabu_length"].z >= 0)
+        return z3.And(*parts) if parts else z3.BoolVal(True)
+
+    def snapshot(self, ex, st, args):
+        g = args["start_dag"]
+        return graph_snapshot(g) if isinstance(g, Obj) else {}
+
+    def raises(self, ex, st, args):
+        # rejected inputs (state untouched): start_dag over other variables; fixed edges that close a directed cycle
+        g = args["start_dag"]
+        V = args["self"].fields["variables"].mem
+        fixed = args["fixed_edges"].mem
+        x, a, b = fresh("x", Atom), fresh("a", Atom), fresh("b", Atom)
+        th = ex.lib.theory(ex)
+        from vf.pyvc.lib import RelSort
+        fin = fresh("Estart", RelSort)
+        none = fresh("Enone", RelSort)
+        if not isinstance(g, Obj):
+            ex.axioms.append(z3.ForAll([a, b], z3.Not(none[a, b])))
+        E0 = g.fields["@E"] if isinstance(g, Obj) else none
+        ex.axioms.append(z3.ForAll([a, b], fin[a, b] == z3.Or(E0[a, b], fixed[PairAA.mk(a, b)])))
+        if isinstance(g, Obj):
+            ex.axioms.append(th.induct_rel(E0, lambda p, q: th.path(fin)(p, q)))
+        conds = [z3.Not(th.acyclic(fin))]
+        if isinstance(g, Obj):
+            conds.append(z3.Exists([x], V[x] != N_(g, x)))
+        args["self"]._Estart = fin
+        return {"ValueError": z3.Or(*conds)}
+
+    def on_raise(self, ex, st, args, old, exc):
+        g = args["start_dag"]
+        return graph_unchanged(g, old) if isinstance(g, Obj) else z3.BoolVal(True)
+
+    def common(self, ex, st, args, cm, fixed):
+        """the graph-shape part shared by invariant and postcondition"""
+        th = ex.lib.theory(ex)
+        V = args["self"].fields["variables"].mem
+        x, a, b = fresh("x", Atom), fresh("a", Atom), fresh("b", Atom)
+        return [wf_graph(cm), th.acyclic(cm.fields["@E"]), z3.ForAll([x], V[x] == N_(cm, x)),
+                z3.ForAll([a, b], z3.Implies(fixed[PairAA.mk(a, b)], cm.fields["@E"][a, b]))]
+
+    # loop 0: for _ in iteration
+    def inv0(self, ex, st, args, old, ghost):
+        cm, tabu = st.env["current_model"], st.env["tabu_list"]
+        parts = self.common(ex, st, args, cm, st.env["fixed_edges"].mem)
+        if tabu.mem is not None and z3.is_int_value(args["tabu_length"].z) and args["tabu_length"].z.as_long() == 0:
+            o = fresh("o", tabu.esort)
+            parts.append(z3.ForAll([o], z3.Not(tabu.mem[o])))   # a deque of maxlen 0 stays empty
+        g = args["start_dag"]
+        if isinstance(g, Obj):
+            parts.append(graph_unchanged(g, old))
+            parts.append(z3.BoolVal(cm is not g))
+        return z3.And(*parts)
+
+    invariants = property(lambda self: {0: self.inv0})
+
+    def post(self, ex, st, args, old, result):
+        if not isinstance(result, Obj):
+            return z3.BoolVal(False)
+        fixed = args["fixed_edges"].mem
+        sh = self.common(ex, st, args, result, fixed)
+        out = {"result.wf": sh[0], "result.acyclic": sh[1], "result.nodes-are-the-variables": sh[2], "result.keeps-fixed-edges": sh[3]}
+        g = args["start_dag"]
+        if isinstance(g, Obj):
+            out["start_dag-untouched"] = z3.And(graph_unchanged(g, old), z3.BoolVal(result is not g))
+        if z3.is_int_value(args["tabu_length"].z) and args["tabu_length"].z.as_long() == 0 and st.ghost.get("break0"):
+            # the loop was left through `break` (not by exhausting max_iter): local optimum w.r.t. the C11 move relation, empty tabu list
+            score = args["scoring_method"].fields["__opaque__"]
+            L = legal_parts(ex, st, result.fields["@E"], args["self"].fields["variables"].mem, empty_set(OpT), args["black_list"].mem,
+                            args["white_list"].mem, fixed, args["max_indegree"].z, score["local_score"], score["structure_prior_ratio"])
+            eps = args["epsilon"].z
+            q, delta = L["q"], L["delta"]
+            out["local-optimum.add"] = z3.ForAll(q, z3.Implies(z3.And(L["kind"] == PLUS, L["add_legal"], L["add_delta"]), delta < eps))
+            out["local-optimum.remove"] = z3.ForAll(q, z3.Implies(z3.And(L["kind"] == MINUS, L["rem_legal"], L["rem_delta"]), delta < eps))
+            out["local-optimum.flip"] = z3.ForAll(q, z3.Implies(z3.And(L["kind"] == FLIP, L["flip_legal"], L["flip_delta"]), delta < eps))
+        return out
+
+
+register(HillClimbEstimate())
